@@ -2,7 +2,7 @@
 """
 tools/apiprobe.py — C01 quantifies over *every* safe public function that yields a Pointer, PointerBuf or Token.
 The harness knows the functions of the pinned tree; a change can add new ones (a constructor from another syntax, a
-`From<char>`, a convenience method). This step finds public items of `Pointer`, `PointerBuf` and `Token` that are not in
+`From<char>`, a convenience method). This step finds public items of `Pointer`, `PointerBuf`, `Token` and `Report<ParseError>` (`RichParseError`) that are not in
 the snapshot (lean/anchors_src), generates a probe program that calls each of them on generated inputs, and checks every
 pointer / token they return, or leave behind in a `&mut self` receiver, with the independent RFC 6901 recogniser.
 
@@ -15,7 +15,7 @@ import os, re, subprocess, sys, json
 sys.path.insert(0, os.path.dirname(os.path.abspath(__file__)))
 from rsparse import strip_comments, match_brace
 
-TYPES = ("Pointer", "PointerBuf", "Token")
+TYPES = ("Pointer", "PointerBuf", "Token", "RichParseError")
 
 def strip_tests(s):
     i = s.find("#[cfg(test)]")
@@ -62,9 +62,9 @@ def surface(srcdir):
                     if not mf.group(1).strip().startswith("$"): out[("From", mf.group(2), mf.group(1).strip())] = hdr
                     continue
                 if " for " in hdr: continue
-                mt = re.match(r"(?:<[^>]*>\s*)?(Pointer|PointerBuf|Token)\b", hdr)
+                mt = re.match(r"(?:<[^>]*>\s*)?(PointerBuf|Pointer|Token|RichParseError|Report<ParseError>)(?![\w<])", hdr)
                 if not mt: continue
-                ty = mt.group(1)
+                ty = "RichParseError" if mt.group(1).startswith(("Rich", "Report")) else mt.group(1)
                 for fm in re.finditer(r"\bpub\s+(?:const\s+)?(unsafe\s+)?fn\s+(\w+)\s*(<[^>(]*>)?\s*\(", body):
                     if fm.group(1): continue                       # unsafe fns are exempt from C01
                     # argument list up to the matching ')'
@@ -131,6 +131,15 @@ def gen_probe(idx, key, sig):
     pre = ""; after = ""
     if recv is None: target = f"jsonptr::{ty}::{name}"
     else:
+        if ty == "RichParseError":
+            # a report is an error *and a subject the caller chose* (`diagnose`, `into_report` take any string; the error types have
+            # public fields): every sample error is paired with the probe input as its subject. A panic yields nothing and is ignored.
+            if parts: return label, None, "argument on a report method"
+            body = ("    for e in rt::sample_parse_errors() {\n"
+                    "        let mut recv = jsonptr::diagnostic::Diagnostic::into_report(e, s.to_string());\n"
+                    f"        let _ = std::panic::catch_unwind(std::panic::AssertUnwindSafe(|| {{ let mut o2: Vec<String> = Vec::new(); {{ let r = recv.{name}(); r.probe(LABEL, s, &mut o2); }} o2 }})).map(|o2| out.extend(o2));\n"
+                    "    }")
+            return label, f"#[allow(unused_mut, unused_variables)]\nfn probe_{idx}(s: &str, out: &mut Vec<String>) {{\n    const LABEL: &str = {json.dumps(label)};\n{body}\n}}\n", None
         mk = {"Pointer": "let recv: &jsonptr::Pointer = match jsonptr::Pointer::parse(s) { Ok(p) => p, Err(_) => return };",
               "PointerBuf": "let mut recv: jsonptr::PointerBuf = match jsonptr::PointerBuf::parse(s) { Ok(p) => p, Err(_) => return };",
               "Token": "let mut recv: jsonptr::Token = jsonptr::Token::new(s);"}[ty]
